@@ -26,7 +26,7 @@ for rp in sorted(glob.glob(os.path.join(V, "benign", "*", "result.json"))):
         why = "; ".join(l.split(":", 1)[1].strip()[:120] for l in c["lines"] if l.startswith("ENGINE"))[:200]
         brows.append(f"| {r['id']} | {p} | {title.replace('|', '/')} | {r.get('tests', '')[:28]} | {out} | {why} |")
 txt = ["### 11.7 Seeded changes: which check catches which change", "",
-       "Property-breaking changes written by sub-agents that saw only the property text and a scratch worktree (round k: suffix `-k`, nine rounds); each confirmed in a scratch worktree",
+       "Property-breaking changes written by sub-agents that saw only the property text and a scratch worktree (round k: suffix `-k`, ten rounds); each confirmed in a scratch worktree",
        "(demo passes on the unchanged tree, fails with the change; suite unchanged at 681 passed + the one sample test that always fails here) and then checked with",
        "`PAMS_REPO=<scratch> ./check <property> --tier quick`. `replayed` = the check replayed a failing input on the real (changed) code; otherwise the VIOLATION line ends with `no-failing-input-found`.",
        "Regenerate with `python3 tools/gen_meta.py && python3 tools/gen_catch_table.py`.", "",
